@@ -35,6 +35,9 @@ CORPUS = [
     "(a)", "((a))", "(((a OR b)))", "(a AND b) OR (c AND d)", "((a b) (c d)) e", "( a )", "f:((a))",
     # fields
     "f:a", "f:a g:b", "f:a AND g:(b OR c)", "a.b:c", "f:\"x y\"~2^3", "f:/re/",
+    # characters a printer might use as an internal placeholder or drop: legal inside terms, phrases, regexes
+    '"foo\x00bar" AND baz', 'foo\x00bar OR baz', 'f\x00g:a b', '/a\x00b/ c', '"a\x01b" "c\x7fd" e',
+    '"\ufffe" OR \uffff', 'a\u200bb AND "c\u200bd"', 'x\x1fy (z\x1e)', '"tab\there" AND a\x0bb',
     # reserved words / escapes as terms
     "\\AND b", "a\\ b c", "TO", "a TO b", "&& ||", "a && b",
     " a ", "\ta AND\tb ", "a",
